@@ -235,6 +235,24 @@ def fam_unused_constant():
                                                             note="declared constant used by an edge only"))]
 
 
+def fam_same_name_edge():
+    """edges whose source variable is called like the target's input variable (r -> r), between different node types and
+    between nodes of one type"""
+    out = []
+    for variant in range(2):
+        fp = FP()
+        ops = {'opa': op_source(fp, 'opa', x='r', lam='la'), 'opc': op_leaky(fp, 'opc', x='v', u='r')}
+        nodes = {'p1': NodeSpec(['opa'], _node_overrides(fp, ops, ['opa'])), 'p2': NodeSpec(['opc'], _node_overrides(fp, ops, ['opc'])),
+                 'p3': NodeSpec(['opc'], _node_overrides(fp, ops, ['opc']))}
+        edges = [EdgeSpec('p1/opa/r', 'p2/opc/r', fp()), EdgeSpec('p2/opc/v', 'p3/opc/r', fp())]
+        if variant:
+            nodes['p0'] = NodeSpec(['opa'], _node_overrides(fp, ops, ['opa']))
+            edges.append(EdgeSpec('p0/opa/r', 'p3/opc/r', fp()))
+        out.append((f"F1:same-name-source-and-target:{variant}", ModelSpec('m', ops, nodes, edges,
+                                                                         note="edge r -> r")))
+    return out
+
+
 def fam_mixed_nodes(seed=0, n=12):
     """F2b: 2-3 nodes of different operator structure (rpo+sg, li, two-input) with random edge sets incl. edges from
     two different variables of one node into one target variable, weight 1.0 / omitted / generic."""
